@@ -269,13 +269,13 @@ PLAN["C13"] = {
             "in expl / bdd-bu / bdd-td and every NFA of FA(2..3,{a,b},<=4) (also with two start symbols on a start state) in expl_fa: load with a state dictionary, dump, load the dump with a "
             "fresh dictionary, dump: first dump == loaded description, second dump == first; (c) arbitrary text: ALL token strings up to length 5 over a 21-token alphabet (keywords, "
             "names, ':', numbers, parentheses, comma, arrow, all six std::isspace characters, byte 0xff) and every single and double token edit (delete / duplicate / replace by each token) of three valid templates, "
-            "each fed to TimbukParser::ParseString and LoadFromString of all four automaton classes, also under ASan+UBSan with a 5 s per-case limit: outcome must be success or std::exception; "
+            "plus ALL byte strings up to length 3 (16.7 M, every one of the 256 byte values) and every single-byte replace/insert/delete edit of the templates, each fed to TimbukParser::ParseString and LoadFromString of all four automaton classes, also under ASan+UBSan with a 5 s per-case limit: outcome must be success or std::exception; "
             "crash, sanitizer report, foreign exception or timeout is a violation. Non-trivial = at least one rule / every text case",
     "assumptions": COMMON_ASSUMPTIONS + ["'all byte strings' is decided only for the bounded token language above (deviation from well-formed text is bounded, not the length of the well-formed part)"],
     "claim": "Every description / automaton / token string / token edit of the stated finite domains.",
     "technique": "bounded exhaustive enumeration of descriptions, automata and token strings (all strings to a length, all 1- and 2-edit deviations from valid templates), sanitizer as crash oracle",
-    "quick": [("rel", "c13.desc.k3"), ("rel", "c13.enc.tree.n2s2k3"), ("rel", "c13.enc.tree.n3s3pk3"), ("rel", "c13.enc.tree.ov.n2k3"), ("rel", "c13.enc.fa.n3l2k4"), ("rel", "c13.text.len5"), ("rel", "c13.edit2"), ("asan", "c13.text.len4"), ("asan", "c13.edit1")],
-    "thorough": [("rel", "c13.desc.k3"), ("rel", "c13.enc.tree.n2s2k3"), ("rel", "c13.enc.tree.n3s3pk3"), ("rel", "c13.enc.fa.n3l2k4"), ("rel", "c13.text.len5"), ("rel", "c13.edit2"), ("asan", "c13.text.len5"), ("asan", "c13.edit2")],
+    "quick": [("rel", "c13.desc.k3"), ("rel", "c13.enc.tree.n2s2k3"), ("rel", "c13.enc.tree.n3s3pk3"), ("rel", "c13.enc.tree.ov.n2k3"), ("rel", "c13.enc.fa.n3l2k4"), ("rel", "c13.text.len5"), ("rel", "c13.edit2"), ("rel", "c13.bytes.len3"), ("rel", "c13.byteedit1"), ("asan", "c13.text.len4"), ("asan", "c13.edit1"), ("asan", "c13.bytes.len2"), ("asan", "c13.byteedit1")],
+    "thorough": [("rel", "c13.desc.k3"), ("rel", "c13.enc.tree.n2s2k3"), ("rel", "c13.enc.tree.n3s3pk3"), ("rel", "c13.enc.fa.n3l2k4"), ("rel", "c13.text.len5"), ("rel", "c13.edit2"), ("rel", "c13.bytes.len3"), ("rel", "c13.byteedit1"), ("asan", "c13.text.len5"), ("asan", "c13.edit2"), ("asan", "c13.bytes.len3"), ("asan", "c13.byteedit1")],
     "require": {"all": ["class_empty_final_set", "class_empty_transition_section", "class_nullary_rule", "class_start_state_with_two_start_symbols", "dump_load_cycles"]},
 }
 
